@@ -13,8 +13,11 @@ def _load():
     import sys
     here = os.path.dirname(os.path.abspath(__file__))
     for f in sorted(glob.glob(os.path.join(here, "prop_*.py"))):
-        m = importlib.import_module(os.path.basename(f)[:-3])
-        PROPS[m.ID] = m.CFG
+        try:
+            m = importlib.import_module(os.path.basename(f)[:-3])
+            PROPS[m.ID] = m.CFG
+        except Exception as e:  # a broken module must not take the other properties down
+            sys.stderr.write("props: cannot load %s: %r\n" % (os.path.basename(f), e))
 
 
 _load()
